@@ -11,6 +11,7 @@
 From Coq Require Import ZArith NArith List Bool Arith.
 From NP Require Import Gen.GenC08 Model.PyBase Model.FormulaStack Model.Expr Proofs.ExprP Proofs.ExprFuelP
   Proofs.FormulaStackP Proofs.NumLitP Proofs.DateP.
+From NP Require Import Model.FunctionNames.
 Import ListNotations.
 Open Scope nat_scope.
 Open Scope list_scope.
@@ -25,6 +26,12 @@ Print Assumptions gen_operator_precedence.
 Theorem gen_node_function_map : GenC08.NODE_FUNCTION_MAP = FormulaStack.NODE_FUNCTION_MAP.
 Proof. reflexivity. Qed.
 Print Assumptions gen_node_function_map.
+
+(* the function id -> name table regenerated from /repo is the table the property was verified against
+   (the table is its own reference: a swap of two names cannot be seen any other way) *)
+Theorem gen_function_map_pinned : GenC08.FUNCTION_MAP = FunctionNames.pinned_function_map.
+Proof. vm_compute. reflexivity. Qed.
+Print Assumptions gen_function_map_pinned.
 
 (* the levels that table induces: comparisons < & < + - < x / < ^ (unary minus and % bind tighter, see parse_un) *)
 Theorem precedence_levels :
